@@ -194,10 +194,15 @@ Proof.
     + destruct (IHds _ _ _ _ E) as (new & -> & L & W).
       exists (WCons (WNoValue (desc_id d)) new). rewrite wnodes_app_assoc. split; [reflexivity|].
       cbn [wlength descs_length wf_nodes wf_node]. split; [lia|split; [exact I|exact W]].
-    + dbind E as [n s1] into E1.
-      destruct (IHds _ _ _ _ E) as (new & -> & L & W).
-      exists (WCons n new). rewrite wnodes_app_assoc. split; [reflexivity|].
-      cbn [wlength descs_length wf_nodes]. split; [lia|split; [eapply IHd; exact E1|exact W]].
+    + match type of E with (if ?c then _ else _) = _ => destruct c end.
+      * dbind E as [i s1] into Ev.
+        destruct (IHds _ _ _ _ E) as (new & -> & L & W).
+        exists (WCons (WValue i) new). rewrite wnodes_app_assoc. split; [reflexivity|].
+        cbn [wlength descs_length wf_nodes wf_node]. split; [lia|split; [exact I|exact W]].
+      * dbind E as [n s1] into E1.
+        destruct (IHds _ _ _ _ E) as (new & -> & L & W).
+        exists (WCons n new). rewrite wnodes_app_assoc. split; [reflexivity|].
+        cbn [wlength descs_length wf_nodes]. split; [lia|split; [eapply IHd; exact E1|exact W]].
 Qed.
 
 (* C09: NestedJsonRenderer's image of the wired tree, converted back by
